@@ -24,13 +24,12 @@ from harness import net_common
 def run(ctx):
     ctx.mc("net", "Connector", "MC_Connector.cfg",
            required_actions=["Start", "SucceedAny", "FailAny", "PairAny", "HE", "CT"], timeout=ctx.pick(900, 3000))
-    ctx.mc("net", "Connector", "MC_Connector.cfg", overrides={"MaxN": 3, "Modes": '{"async", "sync", "sockerr", "streamerr"}'},
+    ctx.mc("net", "Connector", "MC_Connector.cfg", overrides={"MaxN": ctx.pick(2, 3), "Modes": '{"async", "sync", "sockerr", "streamerr"}'},
            required_actions=["Start", "SucceedAny", "FailAny", "HE", "CT"], timeout=ctx.pick(900, 3000))
     net_common.s2c_connector(ctx, "GenG_Connector.cfg", {"MaxN": ctx.pick(3, 4)})
     net_common.s2c_connector(ctx, "GenG_ConnectorCreate.cfg", {"MaxN": ctx.pick(2, 3)}, label="s2c-create")
     ctx.cov["exhaustive"] = True
-    net_common.c2s_connector(ctx, ctx.pick(300, 10000))
-    net_common.c2s_connector(ctx, ctx.pick(60, 1000), create_modes=True, label="c2s-create")
+    net_common.c2s_connector(ctx, ctx.pick(200, 10000), n_create=ctx.pick(40, 1000))
     ctx.cov["rule"] = ("paths: every behaviour (to quiescence) of the connector for every address list of <= %d entries "
                        "over two families x per-address mode (async / synchronous failure) x connect timeout "
                        "(none / before / after the fallback timer), plus lists <= %d with failing stream creation; "
